@@ -1006,6 +1006,11 @@ def build_struct(target_host: str, banner: Optional['Banner'], kex: Optional['SS
         '''Returns a dictionary containing the messages in the "fail", "warn", and "info" levels for this algorithm.'''
         alg_db = SSH2_KexDB.get_db()
         alg_info = {}
+
+        # GSS key exchanges carry a host-specific base64 suffix; look them up through the database's wildcard entry, exactly as the text report does.
+        if alg_type == 'kex' and algorithm.startswith('gss-'):
+            algorithm = "%s-*" % algorithm[0:algorithm.rindex('-')]
+
         if algorithm in alg_db[alg_type]:
             alg_desc = alg_db[alg_type][algorithm]
             alg_desc_len = len(alg_desc)
